@@ -124,9 +124,13 @@ def run_model(drv, case):
                         out_stride=case.get("row_stride", 499))
         m["is2D"] = True
         return m
+    mi = su.model_init(case)
+    if mi is not None:
+        return mi
     rec = su.record_inputs(case)
     if rec.get("raise"):
-        return {"raise": rec["raise"], "stage": "init"}
+        # the rule says this case constructs; the model cannot echo the implementation
+        return {"raise": None, "stage": "init", "no_constants": rec["raise"]}
     progs = su.programs(case)
     out = {"single": None, "seq": None}
     if case.get("Nrep"):
@@ -145,13 +149,13 @@ def run_model(drv, case):
         return out
     frs = [pr["Frand"] if pr.get("Frand") is not None else su.recorded_frand(0) for pr in progs]
     if len(progs) == 1:
-        r = drv.call(su.model_request(case, rec, prog=progs[0], Frand=frs[0], old=True, traces=False,
+        r = drv.call(su.model_request(case, rec, prog=progs[0], Frand=frs[0], old=False, traces=False,
                                       row_stride=case.get("row_stride", 37)))
         out["single"] = su.decode_model(r)
     # constants of the configuration in force at each run (`S.configPath = …` between runs re-derives them)
     recs = [rec if not any(pr.get("reconfig") for pr in progs[1:k + 1]) else su.record_inputs(su.case_of_run(case, k))
             for k in range(len(progs))]
-    reqs = [su.model_request(case, rk, prog=pr, Frand=fr, old=True, row_stride=10 ** 9)
+    reqs = [su.model_request(case, rk, prog=pr, Frand=fr, old=False, row_stride=10 ** 9)
             for rk, pr, fr in zip(recs, progs, frs)]
     # (the pre-repair variant of run(), SnowObj.run, is kept in Lean for the counter-example theorem only)
     for tag, fixed in (("seq_fixed", True),):
@@ -238,8 +242,9 @@ def compare(case, impl, model):
     dis = []
     if model is None:
         return dis
-    if impl.get("raise"):
-        return [] if impl["raise"] == model.get("raise") else [f"init exception: impl {impl['raise']}"]
+    if impl.get("raise") or model.get("stage") == "init":
+        return [] if (impl.get("raise") or None) == (model.get("raise") or None) else \
+            [f"init exception: impl {impl.get('raise')} vs rule {model.get('raise')}"]
     if model.get("is2D"):
         run = impl["runs"][0]
         dis = su.compare_2d(case, run, model, arrays=True)
@@ -366,7 +371,10 @@ def _check_complete_run(case, prog, impl, run, site, out):
                            detail=f"{len(time)} rows, stride arithmetic gives {len(steps)} (n={n}, i_end={i_end})"))
         return
     if len(prof) != n:
-        return  # C05's business
+        out.append(Failure(clause="history_aligned", key=f"programme_length|{site}|",
+                           detail=f"tempProfile(dt) has {len(prof)} samples but the process has n = {n} steps: the time "
+                                  f"grid and t_sol clauses cannot be evaluated"))
+        return
     for j, st in enumerate(steps):
         if not close(time[j] * 3600.0, dt * st, rtol=1e-9) and abs(time[j] * 3600 - dt * st) > 1e-9:
             out.append(Failure(clause="history_aligned", key=f"time_is_dt_step|{site}|",
@@ -441,7 +449,7 @@ def _check_table(case, prog, impl, run, site, out):
 
 
 def predicates(case, impl):
-    out = []
+    out = su.init_failures(case, impl, Failure)
     if impl.get("raise") or not impl.get("runs"):
         return out
     site = f"_run_{case['dim']}"
@@ -450,6 +458,12 @@ def predicates(case, impl):
     for k, (prog, run) in enumerate(zip(progs, impl["runs"])):
         if "snap" not in run:
             continue
+        if run.get("changed_later"):
+            out.append(Failure(clause="history_aligned",
+                               key=f"history_stable|{site}|{'+'.join(run['changed_later'])}",
+                               detail=f"the histories {run['changed_later']} handed out after run {k} changed when a LATER "
+                                      f"run was made in the same process (same object re-run, or a second object on the "
+                                      f"same grid): a finished result must keep its own data"))
         state = _partial(run["snap"], async_study=bool(case.get("Nrep")) and case.get("how") == "async")
         cls = "fresh-object" if not had_complete else "reused-object"
         if run["raise"]:
@@ -689,7 +703,25 @@ def cases_late_stride():
         return
 
 
+def cases_two_objects(tier="thorough"):
+    """TWO objects of the same configuration (same grid shape) in one process: the first one's histories are
+    copied at first read and read AGAIN after the second object has run"""
+    h = 0.05
+    dt = su.dt_1d_default(h)
+    a = dict(dim="1D", config="shelf", height=h, k_s0=2000, t_tot=5000 * dt, start=20, stop=-50, rate=0.5, holds=None,
+             cnTemp=None, Frand=0.4, kind="two-objects", row_stride=97,
+             then_other=dict(start=10, rate=0.25, t_tot=6000 * dt, Frand=0.7, k_s0=400))
+    h2 = 0.05
+    dt2 = su.dt_2d_default(h2, h2)
+    b = dict(dim="2D", config="shelf", height=h2, diameter=h2, k_s0=2000, t_tot=9500 * dt2, start=20, stop=-50, rate=0.5,
+             holds=None, cnTemp=None, Frand=0.5, kind="two-objects", row_stride=499,
+             then_other=dict(start=12, t_tot=300 * dt2, Frand=0.3))
+    return [a] if tier == "quick" else [a, b]
+
+
 def cases(rng, tier):
+    for c in cases_two_objects(tier):
+        yield c
     for c in cases_thaw_refreeze(tier):
         yield c
     for c in cases_late_stride():
